@@ -37,15 +37,15 @@ Section Main.
 
   (* a bad-lexeme step records its diagnostic *)
   Lemma step_bad_records E x lo x' : wf (src, E) x -> step uw ud x = StepItem (IBad lo) x' ->
-    exists d, In d (errs x') /\ d_name d = s "BAD_LEXEME" /\
-              d_hls d = [mkhl (line x) (col x) (Some 1) None].
+    exists d hint, In d (errs x') /\ d_name d = s "BAD_LEXEME" /\
+              d_hls d = [mkhl (line x) (col x) (Some 1) hint].
   Proof.
     intros Hw. unfold step. destruct (rest x) as [|c r].
     - destruct (try_parsers uw ud parsers x); discriminate.
     - destruct (at_splice (c :: r)).
       + destruct (peek1 (c :: r)) as [[? ?]|]; discriminate.
       + destruct (try_parsers uw ud parsers x); try discriminate.
-        cbv zeta. intros H; inversion H; subst. eexists. split; [left; reflexivity|]. split; reflexivity.
+        cbv zeta. intros H; inversion H; subst. eexists. eexists. split; [left; reflexivity|]. split; reflexivity.
   Qed.
 
   Lemma wf_skipn E x : wf (src, E) x -> skipn (off x) src = rest x.
@@ -105,7 +105,7 @@ Section Main.
       destruct i as [t lo hi|lo|lo hi]; cbn [item_reported]; try reflexivity;
         [|exact (step_skip_splice E x lo hi x' Hw Est)].
       (* the diagnostic recorded by this step is still there at the end *)
-      destruct (step_bad_records E x lo x' Hw Est) as [d [Hd [Hn Hh]]].
+      destruct (step_bad_records E x lo x' Hw Est) as [d [hint [Hd [Hn Hh]]]].
       destruct (IH (errs x') x' (IBad lo :: acc) items xf (wf_rebase _ _ _ Hw') Eq) as [_ [_ [_ [_ [[_ [nw Hext]] _]]]]].
       cbn [snd] in Hext. unfold bad_reported. cbn [item_lo] in Hlo. subst lo.
       pose proof (wf_true_pos _ _ Hw) as Htp. cbn [fst] in Htp. rewrite Htp.
